@@ -291,7 +291,9 @@ PROPS = {
             'external utility) are made in the volatile scope - they do not outlive the command -, those of a special built-in or of a command '
             'without a name in the global scope (perform_assignments of simple_command.rs). Unit funcall (shared with C02): a function body runs '
             'in a regular context of its own holding the call\'s positional parameters, which is popped when the call ends (RAII of the context '
-            'guard assumed). NOT decided: completeness of env_c_strings, ContextGuard, positional parameters, extend_env / init, and '
+            'guard assumed); execute_function and execute_external_utility make the assignments of the command, exported, in a volatile context '
+            'pushed on top of the caller\'s contexts, the body / utility runs with that context in place, and the contexts afterwards are the '
+            'caller\'s ("assignments before a function or utility do not outlive it"). NOT decided: completeness of env_c_strings, ContextGuard, positional parameters, extend_env / init, and '
             'everything the interpreter does with these operations (which scope a built-in, function or assignment uses).'),
         'trusted_base': ['Verus 0.2026.09.13 + Z3', '/verif/tools/vextract.py'],
         'assumptions': [
@@ -303,6 +305,7 @@ PROPS = {
             '(uninterpreted name/value projections)',
             'a Vec holds at most usize::MAX elements (precondition on the context stack)',
             'the labeled block of get_or_new_impl is checked as a one-pass labeled loop (rewrite rule labeled-block-to-loop)',
+            'units simplecmd / funcall: the assignment performer, the function body, the utility starter, perform_redirs and the error handlers are opaque calls observed by ghost monitors; RAII of the context guard (Env::push_context) and of the redirection guard is assumed (external_body contracts); PositionalParams::from_fields is assumed to keep the fields in order; await points dropped',
         ],
     },
     'C20': {
@@ -355,6 +358,10 @@ PROPS = {
             'succeeded; (6) unit funcall (Verus): execute_function_body runs the body exactly once in a regular variable context of its own '
             '(positional parameters = the fields of the call) on top of what the caller had, gone afterwards; a Return divert from the body ends '
             'THIS call only - the caller goes on, with the status the return carried - and every other divert is handed on unchanged; '
+            'execute_function runs the body exactly once iff the redirections and the assignments of the command succeeded (a failed redirection '
+            'is reported and nothing runs, a divert from the assignments is handed on), execute_external_utility starts the utility at most '
+            'once under the same conditions with all the fields of the command, makes its status `$?` and hands on its divert, and a '
+            'utility that is not found leaves status 127 (the constant is read from yash-env/src/semantics.rs) with one report and nothing started; '
             '(5) unit simplecmd (Verus): SimpleCommand::execute classifies the first field and runs exactly the executor for that '
             'kind of target, once (the absent-target executor for a command without a name), nothing after a failed expansion; the if command tries its conditions in order, runs a `then` branch only right after ITS condition held and the else '
             'branch only after every condition failed, has the status and result of the branch it ran, and status 0 when it ran none. '
@@ -366,7 +373,7 @@ PROPS = {
             'unit cmdsearch: the methods of ClassifyEnv / PathEnv answer according to ghost views builtin_of / function_of / path_hit (implementor obligation, not verified); search_path is external_body (returns path_hit, leaves the environment alone); str::contains(char), CString::default / new are opaque helpers; Builtin / Function reduced to what the search reads; the raw identifier r#type is renamed (Verus aborts on it); derived PartialEq of Type is structural',
             'unit looplevel: Stack::loop_count is external_body with the contract the Kani unit loopcount checks (bounded); NonZeroUsize::get returns the non-zero number; ExitStatus::SUCCESS = ExitStatus(0); Field and trap::Condition are placeholders',
             'unit loopcount (Kani): Frame::Builtin frames are not among the generated frames',
-            'units simplecmd / funcall: word expansion, classification, the four executors, error handlers, apply_errexit, the assignment performer, executing a function body, the environment hook are opaque calls observed by ghost monitors; RAII of the context guard is assumed in the contract of Env::push_context (external_body); `&mut guard` is checked as `guard.env`; await points dropped',
+            'units simplecmd / funcall: word expansion, classification, the four executors (in simplecmd), error handlers, apply_errexit, the assignment performer, executing a function body, the environment hook, RedirGuard::perform_redirs, search_path, start_external_utility_in_subshell_and_wait, print_error, xtrace are opaque calls observed by ghost monitors; RAII of the context guard and of the redirection guard is assumed in the contracts of Env::push_context / RedirGuard::new (external_body), and perform_redirs is assumed to keep the reference the guard was made with; `&mut guard` is checked as `guard.env`, `let env = &mut RedirGuard::new(env)` as an owning binding; format!(..).into() messages are a helper call; await points dropped',
             'unit whileloop: List::execute and evaluate_condition are external_body (any result, appended to a ghost log in the reduced Env); `?` on ControlFlow through assumed contracts of Try::branch / FromResidual::from_residual; await points dropped; termination not claimed',
         ],
     },
@@ -392,7 +399,7 @@ PROPS = {
         ],
     },
     'C09': {
-        'v_units': ['redir'],
+        'v_units': ['redir', 'funcall'],
         'k_units': [],
         'level': 'other',
         'explanation': (
@@ -412,14 +419,20 @@ PROPS = {
             'a file this very open created (O_CREAT|O_EXCL) or a non-regular file, closing what it opened when it refuses; <& and >& '
             '(copy_fd) only ever name an open descriptor of the right access mode that is not close-on-exec, or close the target for "-"; '
             'pipe and here-string operators are errors; here_doc::open_fd closes its temporary file when filling it fails; every opener '
-            'opens at most one descriptor and leaves nothing behind on failure. NOT decided: expansion of the operand and the writing of the '
-            'here-document body (assumed not to touch the table), which callers keep the guard alive for how long '
-            '(async interpreter code), move_fd_internal, and the simulated system itself.'),
+            'opens at most one descriptor and leaves nothing behind on failure. Two CALLERS of the guard are under contract as well (unit funcall, '
+            'shared with C02 / C16; RAII of the guard assumed there as a whole): execute_function and execute_external_utility perform the '
+            'redirections of the command first, all of them, once, under a guard that lives until the command is over - the assignments, the '
+            'function body / the utility run with exactly those redirections in effect and afterwards the redirections in effect are the '
+            'caller\'s -, and after a failed redirection the error is reported once and neither assignments nor command happen. '
+            'NOT decided: expansion of the operand and the writing of the '
+            'here-document body (assumed not to touch the table), the other callers of the guard (built-ins, compound commands, the absent target: '
+            'async interpreter code), move_fd_internal, and the simulated system itself.'),
         'trusted_base': ['Verus 0.2026.09.13 + Z3', '/verif/tools/vextract.py'],
         'assumptions': [
             'the system traits Close / Dup / Fcntl are replaced by one synchronous model trait over a ghost descriptor table (fd -> open file description, close-on-exec); dup returns a descriptor that was not open, >= its minimum, EBADF exactly for a closed source; dup2 clears close-on-exec; close of a closed descriptor succeeds (as the trait documents); failures of close/dup2 on valid descriptors are a function of the state and excluded by hypothesis in the restoration clauses',
             'expand_word / expand_text / fill_content / trace_* are external_body with assumed contracts: they leave the descriptor table alone; open() of the model yields a descriptor that was not open, for a NEW open file description that remembers its access mode and flags; fstat answers for the file behind the description; CString::new, the parsing of the <& operand and Path::new are opaque helpers; Result::is_ok_and has an assumed contract; `enum_set!(A | B)` is checked as `A | B`',
             'await points are dropped (strip-async): nothing else runs in between',
+            'unit funcall (callers of the guard): RAII of RedirGuard is assumed as a whole in the contract of RedirGuard::new (external_body: when the guard goes away the redirections in effect are those of before), perform_redirs / the error handler / perform_assignments / the function body / the utility starter are opaque calls observed by a ghost monitor; await points dropped',
             'Env reduced to the system field; RedirGuard passes itself where &mut Env is expected (DerefMut): checked as `self.env`; `for x in v.drain(..).rev()` is checked as `while let Some(x) = v.pop()`, `for x in v.drain(..)` through a helper with an assumed contract; Drop::drop is checked as an inherent method with the same body',
             'Location, Word, Text, HereDoc, Field, XTrace, expansion errors, CString, NulError, ParseIntError are opaque placeholders; EnumSet<T> is a ghost set of flags with assumed contracts for empty / | / into / contains; Mode, the option set (one option) and file status (one bit) are reduced models; Errno::EBADF = 9, EEXIST = 17, ENOENT = 2',
         ],
